@@ -10,7 +10,9 @@
 //!   jsondrv --mode cases  --prop C01|C02 --cases F [--from a --to b] --out F [--seed S]
 //!   jsondrv --mode sweep  --prop C01|C02 --scalars quick|all [--from a --to b] --out F [--seed S]
 //!   jsondrv --mode replay --prop C01|C02 --file REPLAY.json --out F
-//!   --stride n --offset k: only cases i with i % n == k;  --dry: render the documents only
+//!   --stride n --offset k: only cases i with i % n == k;  --dry: render the documents only;
+//!   --skip i,j,..: leave out these items (case indices / scalar values) - used after a crash or hang:
+//!   `<out>.progress` names the item that was being executed (exit 3 = watchdog)
 //!
 //! Output: ndjson; {"t":"viol",...} per violation (first 3 per key in full), {"t":"toolerr",...},
 //! and a final {"t":"summary",...}.  Exit 0 unless the harness itself failed (2).
@@ -22,8 +24,42 @@ use std::collections::{BTreeMap, HashSet};
 use std::hash::{Hash, Hasher};
 use std::io::{BufRead, BufWriter, Write};
 use std::panic::{catch_unwind, AssertUnwindSafe};
+use std::sync::atomic::{AtomicBool, AtomicU64, Ordering};
 
 type TagsV = Vec<Vec<Vec<u8>>>;
+
+// Progress marker and watchdog: the index (case line / scalar value) being executed is written to
+// `<out>.progress` before the code under test runs, so that a crash of the process costs one item;
+// a watchdog thread ends the process (exit 3) when one item does not return within WATCHDOG_SECS.
+static TICK: AtomicU64 = AtomicU64::new(0);
+static ACTIVE: AtomicBool = AtomicBool::new(false);
+const WATCHDOG_SECS: u64 = 5;
+
+struct Progress(std::fs::File);
+impl Progress {
+    fn at(&self, i: u64) {
+        use std::os::unix::fs::FileExt;
+        let _ = self.0.write_at(format!("{:<20}", i).as_bytes(), 0);
+        TICK.fetch_add(1, Ordering::Relaxed);
+    }
+}
+
+fn start_watchdog() {
+    std::thread::spawn(|| {
+        let mut last = u64::MAX;
+        let mut since = std::time::Instant::now();
+        loop {
+            std::thread::sleep(std::time::Duration::from_millis(200));
+            let t = TICK.load(Ordering::Relaxed);
+            if t != last || !ACTIVE.load(Ordering::Relaxed) {
+                last = t;
+                since = std::time::Instant::now();
+            } else if since.elapsed().as_secs() >= WATCHDOG_SECS {
+                std::process::exit(3);
+            }
+        }
+    });
+}
 
 fn arg(args: &[String], name: &str) -> Option<String> {
     args.iter().position(|a| a == name).and_then(|i| args.get(i + 1).cloned())
@@ -1195,8 +1231,10 @@ fn spelling_exists(c: u32, sp: &str) -> bool {
     }
 }
 
-fn sweep(prop: &str, list: &[u32], buf: &mut Vec<u8>, sink: &mut Sink, stats: &mut Stats, seen: &mut HashSet<u64>, seed: u64) {
-    const K: usize = 16;
+/// every scalar of the list in every legal spelling, K per document (the check runs K = 16: neighbours
+/// interact, and K = 1: the scalar alone between the quotes)
+fn sweep(prop: &str, list: &[u32], buf: &mut Vec<u8>, sink: &mut Sink, stats: &mut Stats, seen: &mut HashSet<u64>, seed: u64, k: usize, progress: &Progress) {
+    let K: usize = k.max(1);
     // C02 quantifies over events (values), not spellings: one spelling suffices to carry the value
     let spellings: &[&str] = if prop == "C01" { &["lit", "sh", "ul", "uU"] } else { &["lit", "ul"] };
     for sp in spellings {
@@ -1214,6 +1252,7 @@ fn sweep(prop: &str, list: &[u32], buf: &mut Vec<u8>, sink: &mut Sink, stats: &m
                 }
                 let part = &chunk[start..endi];
                 start = endi;
+                progress.at(part[0] as u64);
                 let doc = match sweep_doc(part, sp, bi as u64) {
                     Some(d) => d,
                     None => continue,
@@ -1262,6 +1301,9 @@ fn main() {
     let stride: usize = arg(&args, "--stride").and_then(|x| x.parse().ok()).unwrap_or(1).max(1);
     let offset: usize = arg(&args, "--offset").and_then(|x| x.parse().ok()).unwrap_or(0);
     let dry = args.iter().any(|a| a == "--dry");
+    let skip: HashSet<u64> = arg(&args, "--skip").map(|x| x.split(',').filter_map(|y| y.parse().ok()).collect()).unwrap_or_default();
+    let progress = Progress(std::fs::File::create(format!("{}.progress", opath)).expect("progress file"));
+    start_watchdog();
     vh::silence_panics();
     let mut sink = Sink { out: BufWriter::new(std::fs::File::create(&opath).expect("out file")), counts: BTreeMap::new(), toolerrs: 0 };
     let mut stats = Stats::default();
@@ -1292,9 +1334,11 @@ fn main() {
                 };
                 i += 1;
                 let i = i - 1;
-                if i < from || i >= to || i % stride != offset % stride {
+                if i < from || i >= to || i % stride != offset % stride || skip.contains(&(i as u64)) {
                     continue;
                 }
+                progress.at(i as u64);
+                ACTIVE.store(true, Ordering::Relaxed);
                 let case: Value = match serde_json::from_str(&line) {
                     Ok(v) => v,
                     Err(e) => {
@@ -1321,6 +1365,9 @@ fn main() {
             let list = scalar_list(&which, seed);
             let a = from.min(list.len());
             let b = to.min(list.len());
+            let list: Vec<u32> = list[a..b].iter().copied().filter(|c| !skip.contains(&(*c as u64))).collect();
+            let (a, b) = (0, list.len());
+            ACTIVE.store(!dry, Ordering::Relaxed);
             if dry {
                 for c in &list[a..b] {
                     for sp in ["lit", "sh", "ul", "uU"] {
@@ -1330,7 +1377,9 @@ fn main() {
                     }
                 }
             } else {
-                sweep(&prop, &list[a..b], &mut buf, &mut sink, &mut stats, &mut seen, seed);
+                // alone first: a scalar that kills the process is then named exactly by the progress marker
+                sweep(&prop, &list[a..b], &mut buf, &mut sink, &mut stats, &mut seen, seed, 1, &progress);
+                sweep(&prop, &list[a..b], &mut buf, &mut sink, &mut stats, &mut seen, seed, 16, &progress);
             }
         }
         "replay" => {
@@ -1355,6 +1404,8 @@ fn main() {
                         exp: Expected { id: arr32(&ind.id), pk: arr32(&ind.pk), sig: sg, kind: ind.kind.as_u64(), kind_num: ind.kind.as_f64().unwrap_or(-1.0),
                                         ts: ind.ts.as_u64(), ts_num: ind.ts.as_f64().unwrap_or(-1.0), tags: ind.tags.clone(), content: ind.content.clone() },
                     };
+                    progress.at(0);
+                    ACTIVE.store(true, Ordering::Relaxed);
                     fill(&mut buf, bytes.len() * 2 + 4096, "a5", 0);
                     let o = parse(&bytes, &mut buf);
                     let show = match &o {
@@ -1374,6 +1425,7 @@ fn main() {
             std::process::exit(2);
         }
     }
+    ACTIVE.store(false, Ordering::Relaxed);
     let sm = summary(&stats, &sink);
     writeln!(sink.out, "{}", sm).unwrap();
     sink.out.flush().unwrap();
